@@ -349,14 +349,24 @@ impl Handle {
     ) -> nix::Result<(ObjectBinaryRepr, ObjectBinaryRepr)> {
         let leaf = self.node.data.leaf();
         let key_offset = k_size * self.idx;
-        let key_raw = leaf.keys_raw[key_offset..k_size * (self.idx + 1)].to_vec();
+        // `idx` is bounded by the node's `len` field, which comes from debugee memory and may
+        // hold anything: never index past the bytes that were fetched for the node
+        let key_raw = leaf
+            .keys_raw
+            .get(key_offset..k_size * (self.idx + 1))
+            .ok_or(nix::Error::EFAULT)?
+            .to_vec();
         let key_data = ObjectBinaryRepr {
             raw_data: bytes::Bytes::from(key_raw),
             address: leaf.keys_debugee_location.map(|addr| addr + key_offset),
             size: k_size,
         };
         let val_offset = v_size * self.idx;
-        let val_raw = leaf.vals_raw[val_offset..v_size * (self.idx + 1)].to_vec();
+        let val_raw = leaf
+            .vals_raw
+            .get(val_offset..v_size * (self.idx + 1))
+            .ok_or(nix::Error::EFAULT)?
+            .to_vec();
         let val_data = ObjectBinaryRepr {
             raw_data: bytes::Bytes::from(val_raw),
             address: leaf.vals_debugee_location.map(|addr| addr + val_offset),
